@@ -205,6 +205,16 @@ def run_shards(pid, tier, seed, nshards, timeout, extra=None):
         lf = open(logf, 'w')
         p = subprocess.Popen(cmd, cwd=VERIF, env=shard_env(hs), stdout=lf, stderr=subprocess.STDOUT)
         procs.append((i, p, outf, logf, lf))
+    from vt.table import AMBIENT
+    if pid in AMBIENT and not extra:
+        outf = os.path.join(OUT, 'shards', f'{pid}-{tier}-{seed}-ambient.json')
+        if os.path.exists(outf):
+            os.remove(outf)
+        logf = outf[:-5] + '.log'
+        lf = open(logf, 'w')
+        p = subprocess.Popen([PY, '-m', 'vt.ambient_shard', pid, '--tier', tier, '--seed', str(seed), '--out', outf],
+                             cwd=VERIF, env=shard_env('0'), stdout=lf, stderr=subprocess.STDOUT)
+        procs.append(('ambient', p, outf, logf, lf))
     results, problems = [], []
     deadline = time.time() + timeout
     for i, p, outf, logf, lf in procs:
@@ -290,6 +300,9 @@ def finish(pid, tier, seed, m, problems, wall, nshards):
     meta = m.get('meta') or {}
     min_nt = meta.get('min_nontrivial', 2)
     required = list(meta.get('required', []))
+    from vt.table import AMBIENT
+    if pid in AMBIENT:
+        required.append('ambient:tests-passed')
     missing = [r for r in required if m['reach'].get(r, 0) + m['clauses'].get(r, 0) == 0]
     inconclusive = []
     if problems:
